@@ -110,8 +110,17 @@ def run(ctx):
                   'identity image excluded',
                   'the periodic loop is not the full product over all images (zero=%s) %s' % (per['zero'], '; '.join(per['why'])))
         # ---- R4 shells >= 1 -----------------------------------------------------------------------
+        shell_cases = _shell_cases(ctx, test_fn, per)
         sh = per['shells']
-        if sh is None:
+        if shell_cases is not None:
+            vals = [v for _, v in shell_cases]
+            okv = bool(vals) and all(v[0] == 'num' and v[1] >= 1 for v in vals)
+            rep.check(okv, 'R4', 'shells-at-least-one', where(b, per['bb']),
+                      'every value the shells argument can take is >= 1: %s' % sorted({int(v[1]) for v in vals if v[0] == 'num'}),
+                      'the number of neighbouring shells searched can be %s: periodic overlaps with the nearest images are missed'
+                      % sorted({(int(v[1]) if v[0] == 'num' else 'non-constant') for v in vals}, key=str))
+            rep.sample('periodic: shells in %s, zero=false' % sorted({str(v[1]) for v in vals}))
+        elif sh is None:
             rep.ok('R4', 'shells-at-least-one', where(b, per['bb']), 'shell count is not a constant: lower bound not decided (accepted)')
             rep.note('R4: shells argument is not constant; lower bound not decided')
         else:
@@ -123,7 +132,7 @@ def run(ctx):
         _prefilter(ctx, pl, per)
     # ---- R7 known hard instances of the shell heuristic ---------------------------------------------------
     if per is not None:
-        _shell_witnesses(ctx, pl, per)
+        _shell_witnesses(ctx, pl, per, _shell_cases(ctx, test_fn, per))
     # ---- R6 the radius used by the prefilter really encloses the shape ---------------------------------
     _enclosing(ctx)
     # the periodic images really are the lattice translates of the placements (C14 obligations, necessary here)
@@ -302,11 +311,70 @@ SHELL_WITNESSES = [
 ]
 
 
-def _shell_witnesses(ctx, pl, per):
-    """Static evaluation of the lifted shell-count decision (comparisons over a(), b(), angle()) at witness cells."""
+_SHELL_CACHE = {}
+
+
+def _shell_cases(ctx, test_fn, per):
+    """[(path condition, shells value)]: every value the `shells` argument of the periodic_images call can take and the
+    conditions on the cell under which it takes it, obtained by executing the overlap function symbolically up to that
+    call (loops entered once with symbolic items; tables, `find`, `map_or`, helpers evaluated by their definitions)."""
+    from ..nest import Nest
+    from ..celltables import recorder
+    f = ctx.facts
+    key = (id(f), test_fn.path)
+    if key in _SHELL_CACHE:
+        return _SHELL_CACHE[key]
+    res = None
+    try:
+        n = Nest(f, test_fn, yields=False)
+        inner = n.by_header.get(per['d2']['header'])
+        if inner is not None:
+            sx, outs = n.iteration(inner, set(), models=[recorder({'Cell2::periodic_images': 'images'})])
+            cases = {}
+            for o in outs:
+                for e in o.effects:
+                    if e[0] == ('rec', 'images') and len(e[1]) >= 3:
+                        pc = tuple(c for c in e[2] if c[0] == 'cond')
+                        cases[(repr(pc), repr(e[1][2]))] = (pc, e[1][2])
+            if cases and not sx.aborted:
+                res = list(cases.values())
+    except Exception:
+        res = None
+    _SHELL_CACHE[key] = res
+    return res
+
+
+def _shell_witnesses(ctx, pl, per, shell_cases=None):
+    """Static evaluation of the shell-count decision at witness cells."""
     rep, f = ctx.rep, ctx.facts
     from fractions import Fraction
     from ..celltables import eval_num
+    if shell_cases is not None:
+        b = pl.b
+        for w in SHELL_WITNESSES:
+            env = {'self.cell.length.value': Fraction(w['a']), 'self.cell.ratio.value': Fraction(w['b']) / Fraction(w['a']),
+                   'self.cell.angle.value': Fraction(w['angle'])}
+            got, why = [], ''
+            for pc, v in shell_cases:
+                try:
+                    sat = all(bool(eval_num(c[1], env)) == c[2] for c in pc)
+                except (KeyError, ValueError, ZeroDivisionError) as ex:
+                    why = 'a condition of the shell-count decision is not a comparison over the cell parameters: %s' % str(ex)[:80]
+                    got = None
+                    break
+                if sat:
+                    got.append(v)
+            if got is None or len({repr(x) for x in got}) != 1 or got[0][0] != 'num':
+                rep.fail('R7', 'shell-witness:%s' % w['name'], where(b), 'cannot evaluate the shell-count decision statically: %s'
+                         % (why or 'the witness cell selects %d value(s)' % len(got or [])), 'undecidable-shape')
+                continue
+            g = int(got[0][1])
+            rep.check(g >= w['min_shells'], 'R7', 'shell-witness:%s' % w['name'], where(b, per['bb']),
+                      'cell (a=%.3g, b=%.3g, angle=%.4g) gets %s shells >= %d required' % (w['a'], w['b'], w['angle'], g, w['min_shells']),
+                      'the shell heuristic searches only %s shell(s) for the cell a=%.3g, b=%.3g, angle=%.4g rad, but %s: at least %d are '
+                      'needed, the overlap is missed and the state gets a score' % (g, w['a'], w['b'], w['angle'], w['why'], w['min_shells']))
+            rep.sample('shell heuristic at witness %s -> %s shells (>= %d required)' % (w['name'], g, w['min_shells']))
+        return
     b, cfg, tr = pl.b, pl.cfg, pl.tr
     sh = tr.origin(per['d2']['src']['term']['args'][2])
     if sh['o'] != 'local':
